@@ -315,7 +315,11 @@ func (g *opGen) selFor(d *ast.Definition, depth int) string {
 	if d.Kind == ast.Object {
 		ifaces = append(ifaces, d.Interfaces...)
 	}
-	switch k := g.rng.Intn(5); {
+	k := g.rng.Intn(5)
+	if (d.Kind == ast.Union || d.Kind == ast.Interface) && g.rng.Intn(2) == 0 {
+		k = 4
+	}
+	switch {
 	case k == 0:
 		return "... on " + d.Name + " { " + inner + " }"
 	case k == 1 && len(ifaces) > 0:
@@ -327,8 +331,22 @@ func (g *opGen) selFor(d *ast.Definition, depth int) string {
 		return "... on " + d.Name + " { ... on " + d.Name + " { " + inner + " } }"
 	default:
 		if d.Kind == ast.Union || d.Kind == ast.Interface {
-			if node := g.schema.Types["Node"]; node != nil && d.Name != "Node" {
-				return inner + " ... on Node { id }"
+			// a fragment on another abstract type that shares possible types with this one (all of them, or some)
+			var others []string
+			for _, t := range g.schema.Types {
+				if t.Kind != ast.Interface || t.Name == d.Name || t.Fields.ForName("id") == nil {
+					continue
+				}
+				for _, p := range g.schema.GetPossibleTypes(d) {
+					if g.schema.Types[p.Name] != nil && containsStr(p.Interfaces, t.Name) {
+						others = append(others, t.Name)
+						break
+					}
+				}
+			}
+			sort.Strings(others)
+			if len(others) > 0 {
+				return inner + " ... on " + others[g.rng.Intn(len(others))] + " { id }"
 			}
 		}
 		return "__typename ... on " + d.Name + " { " + inner + " }"
@@ -495,6 +513,15 @@ func (g *opGen) fieldsFor(d *ast.Definition, depth int, want int) []string {
 		parts = append(parts, s)
 	}
 	return parts
+}
+
+func containsStr(l []string, x string) bool {
+	for _, y := range l {
+		if y == x {
+			return true
+		}
+	}
+	return false
 }
 
 func isRootDef(s *ast.Schema, d *ast.Definition) bool {
